@@ -104,6 +104,8 @@ def plan(tier):
             bits = max(L.bits, R.bits)
             if bits >= 16 and not thorough and mode != 'native':
                 continue
+            if bits >= 32 and L.signed and mode in ('tie_pos', 'neg_inf'):
+                continue        # measured: no SAT answer in 1500 s (32-bit divider against the 70-bit spec multiplier, sign case split) -- not claimed
             tag = '%s_%s_%s' % (mode, l, r)
             Res = CT.common(L, R)
             sname = 'vp_' + tag
@@ -131,6 +133,7 @@ def plan(tier):
     meta = {'instantiations': n,
             'explanation': 'division-free postconditions from the statement; helper functions of each mode are inlined real bodies',
             'not_applicable_parts': ['64-bit representations: divider/multiplier obligations beyond every SAT back end here (not claimed)',
+                                     'signed 32-bit operands under tie_to_pos_inf / neg_inf: solver timeout (1500 s), not claimed; nearest, native and unsigned 32-bit are',
                                      'mixed-signedness operand pairs: representability precondition is not a closed corner condition (not claimed)'],
             'assumptions': []}
     return {'kernels': [k], 'jobs': jobs, 'meta': meta}
